@@ -210,6 +210,7 @@ struct RefResult {
     RefClass cls;
     size_t index;         //!< valid for REF_ENTRY: index into the history listing (0 = oldest)
     const char *why;
+    const char *tag;      //!< short class name for counters
 };
 
 //! compare a string of decimal digits with a size_t without overflow: -1 / 0 / +1
@@ -224,19 +225,19 @@ inline int cmp_digits(const std::string &digits, size_t v) {
 
 //! token: the whole first argument, starting with '!'
 inline RefResult ResolveRef(const std::string &token, size_t hist_size) {
-    RefResult r; r.index = 0;
+    RefResult r; r.index = 0; r.tag = "open";
     std::string sub = token.substr(1);
     if (sub == "!") {
-        if (hist_size == 0) { r.cls = REF_ERROR; r.why = "!! with empty history"; }
-        else { r.cls = REF_ENTRY; r.index = hist_size - 1; r.why = "!!"; }
+        if (hist_size == 0) { r.cls = REF_ERROR; r.why = "!! with empty history"; r.tag = "bangbang_empty_history"; }
+        else { r.cls = REF_ENTRY; r.index = hist_size - 1; r.why = "!!"; r.tag = "bangbang"; }
         return r;
     }
-    if (sub.empty()) { r.cls = REF_ERROR; r.why = "empty argument"; return r; }
+    if (sub.empty()) { r.cls = REF_ERROR; r.why = "empty argument"; r.tag = "empty_argument"; return r; }
     size_t p = 0;
     bool neg = false, sign = false;
     if (sub[0] == '-' || sub[0] == '+') { neg = sub[0] == '-'; sign = true; p = 1; }
     if (sub[0] == ' ' || sub[0] == '\t') { r.cls = REF_OPEN; r.why = "leading blank"; return r; }
-    if (p >= sub.size() || sub[p] < '0' || sub[p] > '9') { r.cls = REF_ERROR; r.why = "non-numeric argument"; return r; }
+    if (p >= sub.size() || sub[p] < '0' || sub[p] > '9') { r.cls = REF_ERROR; r.why = "non-numeric argument"; r.tag = "non_numeric"; return r; }
     size_t q = p;
     while (q < sub.size() && sub[q] >= '0' && sub[q] <= '9') ++q;
     if (q != sub.size()) { r.cls = REF_OPEN; r.why = "digits followed by other characters"; return r; }
@@ -245,14 +246,14 @@ inline RefResult ResolveRef(const std::string &token, size_t hist_size) {
     if (digits.size() > 1 && digits[0] == '0') { r.cls = REF_OPEN; r.why = "leading zeros"; return r; }
     if (!neg) {
         if (cmp_digits(digits, hist_size) < 0) {
-            r.cls = REF_ENTRY; r.index = (size_t)strtoull(digits.c_str(), nullptr, 10); r.why = "!n in range";
-        } else { r.cls = REF_ERROR; r.why = "!n out of range"; }
+            r.cls = REF_ENTRY; r.index = (size_t)strtoull(digits.c_str(), nullptr, 10); r.why = "!n in range"; r.tag = "absolute";
+        } else { r.cls = REF_ERROR; r.why = "!n out of range"; r.tag = "absolute_out_of_range"; }
         return r;
     }
     if (cmp_digits(digits, 0) == 0) { r.cls = REF_OPEN; r.why = "minus zero"; return r; }
     if (cmp_digits(digits, hist_size) <= 0) {
-        r.cls = REF_ENTRY; r.index = hist_size - (size_t)strtoull(digits.c_str(), nullptr, 10); r.why = "!-n in range";
-    } else { r.cls = REF_ERROR; r.why = "!-n out of range"; }
+        r.cls = REF_ENTRY; r.index = hist_size - (size_t)strtoull(digits.c_str(), nullptr, 10); r.why = "!-n in range"; r.tag = "negative";
+    } else { r.cls = REF_ERROR; r.why = "!-n out of range"; r.tag = "negative_out_of_range"; }
     return r;
 }
 
